@@ -170,5 +170,22 @@ def run(chk):
             if ndis == 1:
                 chk.tie_broken('correspondence:io', 'the I/O model and the no_std build differ on "%s": model %s, build %s' % (ln[:100], (mod[i] or '')[:80], outs['none'][i][:80]))
     chk.cov['disagreements_checked'] += ndis
+    # read_to_end appends: whatever the vector held before stays in front (std's contract), for every size around the
+    # 16 KiB scratch buffer of the no_std implementation and every inner chunking
+    rl, rexp = [], []
+    for _ in range(120 if thorough else 40):
+        pre = rng.bytes(rng.choice([0, 0, 1, 5, 100, 20000]))
+        d = rng.bytes(rng.choice([0, 1, 100, 16383, 16384, 16385, 40000]))
+        rl.append('rte %s %d %s' % (hexs(pre), rng.choice([0, 1000, 16384, 7]), hexs(d)))
+        rexp.append('ok %s consumed=%d' % (hexs(pre + d), len(d)))
+    routs = {name: run18(name, rl) for name, _ in VARIANTS}
+    for i, ln in enumerate(rl):
+        for name, _ in VARIANTS:
+            if routs[name][i] != rexp[i]:
+                bad('read_to_end does not append the data to what the vector held (build %s): got %s.. expected %s..' % (name, routs[name][i][:60], rexp[i][:60]),
+                    {'component': 'io', 'command': ln[:300000], 'build': name})
+                break
+    chk.cov['components'].setdefault('io-read-to-end', {'evaluations': len(rl)})
+    chk.cov['evaluations'] += len(rl)
     chk.add_samples('io', len(lines), len(set(lines)), [{'command': lines[0][:100]}, {'command': lines[-1][:100]}],
                     rule='read_exact (need around the source length, inner chunk 0/1/2/3/50), Take (limit 0..2^40 around the length, inner chunk, buffer size), write_all into a fixed slice (room around the data length)')
